@@ -899,6 +899,40 @@ func diffLogs(a, b []string) string {
 	return ""
 }
 
+// seedCmd generates the scenario of one exact seed, runs it, and minimises it
+// when it violates (debugging aid; writes the replay file, no evidence).
+func seedCmd(prop string, seed uint64) int {
+	e := build()
+	defer cleanup(e)
+	gen := filepath.Join(e.scratch, "gen.json")
+	wo := runWorker(e, []string{"VSIM_MODE=gen", "VSIM_PROP=" + prop, "VSIM_TIER=quick", "VSIM_SEED=" + strconv.FormatUint(seed, 10), "VSIM_OUT=" + gen}, 60*time.Second, 1)
+	if wo.code != 0 {
+		fmt.Fprintln(os.Stderr, wo.stderr)
+		return 2
+	}
+	scb, _ := os.ReadFile(gen)
+	rf := &replayFile{Property: prop, Seed: seed, Scenario: scb, Tree: e.tree}
+	cl, det, res, wo := replayOnce(e, prop, rf, "seed", false)
+	if cl == "" {
+		fmt.Printf("seed %d: no violation (worker exit %d)\n%s\n", seed, wo.code, head(wo.stderr, 2000))
+		return 0
+	}
+	rf.Class, rf.Detail = cl, det
+	if res != nil {
+		rf.Tail = res.Tail
+	}
+	m := minimise(e, prop, rf, 90*time.Second)
+	path := filepath.Join(verifDir, "replays", fmt.Sprintf("%s-seed%d.json", prop, seed))
+	b, _ := json.MarshalIndent(m, "", " ")
+	os.MkdirAll(filepath.Join(verifDir, "replays"), 0o755)
+	os.WriteFile(path, b, 0o644)
+	fmt.Printf("seed %d: class=%s\n%s\nscenario: %s\nreplay: %s\n", seed, m.Class, head(m.Detail, 3000), string(m.Scenario), path)
+	for _, l := range m.Tail {
+		fmt.Println("   ", l)
+	}
+	return 1
+}
+
 func main() {
 	args := os.Args[1:]
 	if len(args) == 0 {
@@ -911,6 +945,13 @@ func main() {
 		os.Exit(replayCmd("", args[1]))
 	}
 	prop := args[0]
+	if len(args) >= 3 && args[1] == "--seed" {
+		n, err := strconv.ParseUint(args[2], 10, 64)
+		if err != nil {
+			die(2, "bad seed")
+		}
+		os.Exit(seedCmd(prop, n))
+	}
 	if len(args) >= 3 && args[1] == "--replay" {
 		os.Exit(replayCmd(prop, args[2]))
 	}
